@@ -117,6 +117,7 @@ type Vaxis struct {
 	cursorNext       cursorState
 	cursorLast       cursorState
 	closed           bool
+	closeMu          sync.Mutex // guards closed
 	suspended        bool
 	refresh          bool
 	kittyFlags       int
@@ -417,11 +418,17 @@ func (vx *Vaxis) Events() chan Event {
 // Close shuts down the event loops and returns the terminal to it's original
 // state
 func (vx *Vaxis) Close() {
+	// Close may be called concurrently (the application, the kill-signal
+	// handler and the panic handler of the input goroutine all call it):
+	// exactly one caller shuts down, the others return
+	vx.closeMu.Lock()
 	if vx.closed {
+		vx.closeMu.Unlock()
 		return
 	}
-	vx.PostEvent(QuitEvent{})
 	vx.closed = true
+	vx.closeMu.Unlock()
+	vx.PostEvent(QuitEvent{})
 
 	defer close(vx.chQuit)
 
